@@ -536,7 +536,12 @@ func firstLines(s string, n int) string {
 	return strings.Join(l, " | ")
 }
 
-func kindsOf(src string) string {
+func kindsOf(src string) (res string) {
+	defer func() {
+		if recover() != nil { // the scanner itself panics on some inputs (they are judged in the workers)
+			res = "scanner-panic"
+		}
+	}()
 	rt, _ := scanAll([]byte(src))
 	var k []string
 	for _, t := range rt {
